@@ -178,6 +178,8 @@ class QueryPlanner:
                 return SubSelectStep(select, self.cte_results[table_name], table_name=table_name)
 
         fetch_df_select = copy.deepcopy(select)
+        # CTEs are planned as separate steps (plan_cte): they are not part of the query sent to the integration
+        fetch_df_select.cte = None
         self.prepare_integration_select(integration_name, fetch_df_select)
 
         # remove predictor params
